@@ -614,7 +614,8 @@ int main(int argc, char **argv)
 			"\"executions\": %llu, \"executions_by_deviations\": [", g_h->name, g_h->property, g_variant, desce, g_K,
 			g_mode_db ? "delay-bounded" : "preemption-bounded", (unsigned long long)st_exec);
 	for (int c = 0; c <= g_K; c++) fprintf(jf, "%s%llu", c ? ", " : "", (unsigned long long)st_exec_by_cost[c]);
-	fprintf(jf, "], \"steps\": %llu, \"choice_points\": %llu, \"tree_nodes\": %llu, \"max_choice_points_per_execution\": %llu, "
+	fprintf(jf, "], \"ncpu\": %d, \"io_full\": %s", getenv("VX_NCPU") ? atoi(getenv("VX_NCPU")) : 2, getenv("VX_IO_FULL") ? "true" : "false");
+	fprintf(jf, ", \"steps\": %llu, \"choice_points\": %llu, \"tree_nodes\": %llu, \"max_choice_points_per_execution\": %llu, "
 			"\"distinct_outcomes\": %llu, \"max_threads\": %llu, \"determinism_rechecks\": %llu, \"violations\": %llu, "
 			"\"inconclusive\": %llu, \"completed_bound\": %d, \"exhaustive\": %s, \"cap_hit\": %s, \"wall_s\": %.2f, "
 			"\"first_violation\": \"%s\", \"replay\": \"%s\", \"samples\": [",
